@@ -366,6 +366,13 @@ def run(rep, tier, root=None):
         txt = norm_text(al[0].value).replace(" ", "") if al else ""
         ok = len(al) == 1 and first_loop is not None and al[0].lineno < first_loop.lineno and \
             txt.startswith("numpy.zeros((2*self.total_subaps,2*self.total_subaps)") and "float32" in txt
+        if not ok and len(al) == 1 and first_loop is not None and al[0].lineno < first_loop.lineno and "float32" in txt:
+            # the same allocation with the extent in a local (`n = 2 * self.total_subaps`): read from the interpreter's allocation log
+            I_ = Isp if f is sp else Imp
+            T2 = 2 * Rat.sym("self.total_subaps", ("attr",))
+            zs = [a_ for a_ in I_.alloc_log if a_[0] == f.fq and a_[1].split(".")[-1] == "zeros" and a_[4] == al[0].lineno]
+            ok = len(zs) == 1 and bool(zs[0][2]) and isinstance(zs[0][2][0], (tuple, list)) and len(zs[0][2][0]) == 2 and \
+                all(isinstance(q, Rat) and q.equals(T2) for q in zs[0][2][0])
         rep.check(ok, "O6.fresh-accumulator", f.fq + ": zeroed float32 (2T, 2T) accumulator allocated before the layer loop",
                   "accumulator initialisation is `%s`" % (norm_text(al[0]) if al else "missing"), f.where(al[0]) if al else f.where())
 
@@ -550,6 +557,15 @@ def _reads_mutable_globals(ix, f):
         if isinstance(n, ast.Name) and isinstance(n.ctx, ast.Load) and n.id not in loc:
             b = ns.get(n.id)
             if b is not None and b.kind == "value" and isinstance(b.target, (ast.List, ast.Dict, ast.Set, ast.Call)):
+                if isinstance(b.target, ast.Call):
+                    # a module constant computed by a call (`_G = gamma(5. / 6)`): a closed scalar term is a number, not an object
+                    try:
+                        folded = Interp(ix)._module_constant(b, n.id, b.target)
+                    except Exception:
+                        folded = None
+                    if isinstance(folded, Rat) and not any(isinstance(a_, Fn) and a_.name in ("array", "zeros", "empty", "ones", "arange", "linspace", "listcomp")
+                                                           for a_ in folded.atoms()):
+                        continue
                 out.append(n.id)
     return sorted(set(out))
 
